@@ -345,6 +345,91 @@ class ClassTr:
             return 7
         return default
 
+    def is_canonicaliser(self, fname):
+        """True iff `fname` is a function of the class's module whose source is, recognisably, "rebuild every
+        dict with its keys in sorted order, recursing into dict values / lists / tuples, and return everything
+        else unchanged" (fail closed: any other statement or return form -> False)."""
+        import sys
+        fn = vars(sys.modules[self.cls.__module__]).get(fname)
+        if not inspect.isfunction(fn):
+            return False
+        try:
+            node, _ = fn_ast(fn)
+        except Untranslatable:
+            return False
+        if len(node.args.args) != 1:
+            return False
+        p = node.args.args[0].arg
+        keyvars = set()
+
+        def sorted_keys(v):
+            return (isinstance(v, ast.Call) and isinstance(v.func, ast.Name) and v.func.id == "sorted"
+                    and len(v.args) == 1 and isinstance(v.args[0], ast.Name) and v.args[0].id == p
+                    and all(k.arg == "key" and isinstance(k.value, ast.Name) and k.value.id in ("repr", "str")
+                            for k in v.keywords))
+
+        def rec_or_elem(v, var):
+            """helper(<elem>) or <elem>, elem = p[var] / var"""
+            if isinstance(v, ast.Call) and isinstance(v.func, ast.Name) and v.func.id == fname and len(v.args) == 1:
+                v = v.args[0]
+            if isinstance(v, ast.Name) and v.id == var:
+                return True
+            return (isinstance(v, ast.Subscript) and isinstance(v.value, ast.Name) and v.value.id == p
+                    and isinstance(v.slice, ast.Name) and v.slice.id == var)
+
+        def ok_return(v):
+            if isinstance(v, ast.Name) and v.id == p:
+                return True
+            if isinstance(v, ast.DictComp) and len(v.generators) == 1 and not v.generators[0].ifs:
+                g = v.generators[0]
+                return (isinstance(g.target, ast.Name) and isinstance(g.iter, ast.Name) and g.iter.id in keyvars
+                        and isinstance(v.key, ast.Name) and v.key.id == g.target.id and rec_or_elem(v.value, g.target.id))
+            # type(p)(helper(x) for x in p) / [helper(x) for x in p] / tuple(helper(x) for x in p)
+            inner = v
+            if isinstance(v, ast.Call) and len(v.args) == 1 and not v.keywords:
+                f = v.func
+                if (isinstance(f, ast.Name) and f.id in ("list", "tuple")) or (
+                        isinstance(f, ast.Call) and isinstance(f.func, ast.Name) and f.func.id == "type"
+                        and isinstance(f.args[0], ast.Name) and f.args[0].id == p):
+                    inner = v.args[0]
+            if isinstance(inner, (ast.GeneratorExp, ast.ListComp)) and len(inner.generators) == 1 \
+                    and not inner.generators[0].ifs:
+                g = inner.generators[0]
+                return (isinstance(g.target, ast.Name) and isinstance(g.iter, ast.Name) and g.iter.id == p
+                        and rec_or_elem(inner.elt, g.target.id))
+            return False
+
+        def ok_stmts(stmts):
+            for st in stmts:
+                if isinstance(st, ast.Expr) and isinstance(st.value, ast.Constant):
+                    continue
+                if isinstance(st, ast.Return):
+                    if not ok_return(st.value):
+                        return False
+                elif isinstance(st, ast.Assign) and len(st.targets) == 1 and isinstance(st.targets[0], ast.Name) \
+                        and sorted_keys(st.value):
+                    keyvars.add(st.targets[0].id)
+                elif isinstance(st, ast.Try):
+                    if st.orelse or st.finalbody or not ok_stmts(st.body):
+                        return False
+                    for h in st.handlers:
+                        if not ok_stmts(h.body):
+                            return False
+                elif isinstance(st, ast.If):
+                    t = st.test
+                    typetest = (isinstance(t, ast.Call) and isinstance(t.func, ast.Name) and t.func.id == "isinstance"
+                                and isinstance(t.args[0], ast.Name) and t.args[0].id == p) or \
+                               (isinstance(t, ast.Compare) and isinstance(t.left, ast.Call)
+                                and isinstance(t.left.func, ast.Name) and t.left.func.id == "type")
+                    if not typetest or not ok_stmts(st.body) or not ok_stmts(st.orelse):
+                        return False
+                else:
+                    return False
+            return True
+        good = ok_stmts(node.body)
+        # there must be a dict branch that sorts
+        return bool(good and keyvars)
+
     def read_field(self, n):
         """self.<attr> | self.<accessor>() -> attr name, else None"""
         if self.is_self_attr(n, ("self",)):
@@ -383,6 +468,24 @@ class ClassTr:
             if f in ("_ufl_typecode_", "_ufl_class_", "_ufl_handler_name_"):
                 return          # class constants
             out.append(("tf", f, self.dict_kind(f, kind)))
+            return
+        if isinstance(n, ast.IfExp):
+            # <a> if <cond> else <b>: the condition is a pure function of attribute values (kind 10)
+            cond = []
+            self.cond_reads(n.test, env, cond, what)
+            out.extend(cond)
+            self.reads(n.body, env, kind, out, what, loopvars)
+            self.reads(n.orelse, env, kind, out, what, loopvars)
+            return
+        if isinstance(n, ast.Call) and isinstance(n.func, ast.Name) and len(n.args) == 1 and not n.keywords \
+                and self.is_canonicaliser(n.func.id):
+            # a module-level helper that rebuilds dicts with sorted keys: the rendering of its result is the
+            # canonical-order rendering (kind 7) of the attribute
+            f2 = self.read_field(n.args[0])
+            if f2 is None:
+                raise Untranslatable(f"{self.name}.{what}: canonicaliser applied to {dump(n.args[0])}")
+            out.append(("tf", f2, 7))
+            self.notes.append(f"{what}: {f2} is printed through {n.func.id}() (dict keys in sorted order)")
             return
         if isinstance(n, ast.JoinedStr):
             for v in n.values:
@@ -753,6 +856,27 @@ class Spec:
         if any(t[0] != "tf" or t[1] not in na for t in toks):
             return False
         return all(c[0] != "cmp" or (c[2] in na and c[5] in na) for c in self.eqs)
+
+    def rep_fields(self):
+        return sorted({t[1] for t in self.rep if t[0] == "tf"})
+
+    def repr_roundtrip_cover(self):
+        """Everything == and the hash read is printed by repr (so an object rebuilt from its repr can be ==)."""
+        na = set(self.rep_fields())
+        toks = [] if self.hsh == "ofrepr" else list(self.hsh)
+        if any(t[0] != "tf" or t[1] not in na for t in toks):
+            return False
+        return all(c[0] != "cmp" or (c[2] in na and c[5] in na) for c in self.eqs)
+
+    def repr_omitted_fields(self):
+        na = set(self.rep_fields())
+        out = set()
+        for c in self.eqs:
+            if c[0] == "cmp":
+                out |= {c[2], c[5]} - na
+        if self.hsh != "ofrepr":
+            out |= {t[1] for t in self.hsh if t[0] == "tf"} - na
+        return sorted(out)
 
     def uncovered(self):
         """Tokens of repr / hash data that == does not determine: [(where, token)]"""
